@@ -281,6 +281,7 @@ class Gen:
         self.strctr = 0
         self.notify_handlers = True
         self.notify_after = None
+        self.real_named = []   # (id, class) of objects of real Qt classes
 
     # ---- helpers
     def fresh_str(self, tag="s"):
@@ -379,7 +380,15 @@ class Gen:
             opts += [(1, "level")]
         if srcs and self.owner_cls in ("SimWidget", "SimPanel") and any(x[2] == 0 for x in srcs):
             opts += [(2, "this")]
+        real = self.real_sources(ty)
+        if real:
+            opts += [(3, "real")]
+        if not opts:
+            return self.lit(ty), None, set()
         k = r.weighted(opts)
+        if k == "real":
+            i, p = r.choice(real)
+            return ["prop", ["obj", i], p], None, set()
         if k == "this":
             x = r.choice([x for x in srcs if x[2] == 0])
             return ["this_prop", x[1]], None, set()
@@ -395,6 +404,14 @@ class Gen:
         else:
             o, n = self.obj_widget(depth, allow_mid=True)
         return ["prop", o, x[1]], o, n
+
+    def real_sources(self, ty):
+        out = []
+        for i, c in self.real_named:
+            for p in sc.all_props(c):
+                if p["layer"] == 0 and TY_OF.get(p["type"]) == ty:
+                    out.append((i, p["name"]))
+        return out
 
     def guarded(self, ty, depth):
         """typed read, null-guarded when its object expression may be null"""
@@ -416,7 +433,7 @@ class Gen:
         if ty == "pw":
             return self.obj_widget(max(depth, 0))[0]   # a null result is fine for a pointer-valued sink
         if depth <= 0:
-            return self.guarded(ty, 0) if r.chance(0.75) and (SRC.get(ty) or ty in MSRC) else self.lit(ty)
+            return self.guarded(ty, 0) if r.chance(0.75) and (SRC.get(ty) or ty in MSRC or self.real_sources(ty)) else self.lit(ty)
         if ty == "int":
             k = r.weighted([(5, "read"), (4, "arith"), (2, "tern"), (1, "cast"), (1, "minmax"), (1, "divmod"), (1, "bits"), (1, "neg"), (1, "sub")])
             if k == "read":
@@ -680,6 +697,24 @@ class Gen:
                      ("textChanged", "onTextChanged", [("QString", "string")], "notify")]
             if cls == "SimPanel":
                 sigs.append(("levelChanged", "onLevelChanged", [("int", "int")], "notify"))
+        if cls in sc.BY_NAME and sc.BY_NAME[cls].get("real"):
+            sigs = []
+            chain = [c["name"] for c in sc.class_chain(cls)]
+            table = {
+                "QAbstractButton": [("clicked", "onClicked", [("bool", "bool")], 0), ("pressed", "onPressed", [], 0), ("released", "onReleased", [], 0),
+                                    ("toggled", "onToggled", [("bool", "bool")], "notify")],
+                "QLineEdit": [("returnPressed", "onReturnPressed", [], 0), ("editingFinished", "onEditingFinished", [], 0),
+                              ("textEdited", "onTextEdited", [("QString", "string")], 0), ("textChanged", "onTextChanged", [("QString", "string")], "notify")],
+                "QAbstractSpinBox": [("editingFinished", "onEditingFinished", [], 0)],
+                "QAbstractSlider": [("sliderPressed", "onSliderPressed", [], 0), ("sliderReleased", "onSliderReleased", [], 0), ("sliderMoved", "onSliderMoved", [("int", "int")], 0),
+                                    ("rangeChanged", "onRangeChanged", [("int", "int"), ("int", "int")], 0), ("valueChanged", "onValueChanged", [("int", "int")], "notify")],
+                "QProgressBar": [("valueChanged", "onValueChanged", [("int", "int")], "notify")],
+                "QLabel": [("linkActivated", "onLinkActivated", [("QString", "string")], 0), ("linkHovered", "onLinkHovered", [("QString", "string")], 0)],
+            }
+            for cn in chain:
+                sigs += table.get(cn, [])
+            if not self.notify_handlers:
+                sigs = [x for x in sigs if x[3] != "notify"]
         if cls == "QDialog":
             sigs = [("accepted", "onAccepted", [], 0), ("rejected", "onRejected", [], 0), ("finished", "onFinished", [("int", "int")], 0)]
         if cls == "QWidget":
@@ -743,6 +778,10 @@ class Gen:
                     if p["layer"] in (1, 2) and not self.is_bound(i, p["name"]):
                         continue
                     cands.append(["prop", ["obj", i], p["name"]])
+        for i, c in self.real_named:
+            for p in sc.all_props(c):
+                if TY_OF.get(p["type"]) == ty and p["layer"] == 0:
+                    cands.append(["prop", ["obj", i], p["name"]])
         if cands:
             return r.choice(cands)
         return self.lit(ty)
@@ -763,6 +802,17 @@ class Gen:
             this_ok = False
             if not targets:
                 k = "log"
+        real_targets = [(i, c) for i, c in self.real_named if (self.notify_after is None or i in self.notify_after)
+                        and any(p["layer"] == 0 for p in sc.all_props(c))]
+        if real_targets and (not targets or r.chance(0.3)):
+            i, c = r.choice(real_targets)
+            if k in ("set", "log") or not sc.all_slots(c):
+                p = r.choice([p for p in sc.all_props(c) if p["layer"] == 0])
+                return ["setprop", ["obj", i], p["name"], self.hval(TY_OF[p["type"]])]
+            owner, sl = r.choice(sc.all_slots(c))
+            return ["call", ["obj", i], sl["name"], []]
+        if not targets:
+            k = "log"
         if k == "set":
             i, c = r.choice(targets)
             use_this = this_ok and r.chance(0.25)
@@ -829,7 +879,7 @@ class Gen:
         return out
 
     # ---- whole document
-    def document(self, n_objects=None, n_bindings=None, with_handlers=True, type_name="Doc", handler_p=0.45, max_handlers=2):
+    def document(self, n_objects=None, n_bindings=None, with_handlers=True, type_name="Doc", handler_p=0.45, max_handlers=2, with_real=True):
         r = self.r
         n = n_objects or r.randint(3, 7)
         root_cls = r.weighted([(4, "QWidget"), (3, "QDialog"), (3, "SimPanel")])
@@ -845,8 +895,26 @@ class Gen:
                 self.named.append((oid, cls))
         if root_cls == "SimPanel":
             self.named.append(("root", "SimPanel"))
+        # objects of real Qt classes (read from the working tree's metatypes): real overload sets, isXxx() getters, clones
+        self.real_named = []
+        real_objs = []
+        avail = [c["name"] for c in sc.real_classes() if c["name"] in ("QCheckBox", "QPushButton", "QLineEdit", "QSpinBox", "QDoubleSpinBox", "QSlider", "QLabel", "QProgressBar")]
+        if avail and with_real:
+            short = {"QCheckBox": "chk", "QPushButton": "btn", "QLineEdit": "edit", "QSpinBox": "spin", "QDoubleSpinBox": "dspin", "QSlider": "slider", "QLabel": "label", "QProgressBar": "bar"}
+            for k in range(r.weighted([(3, 0), (3, 1), (3, 2), (2, 3)])):
+                cls = r.choice(avail)
+                oid = "%s%d" % (short[cls], k + 1)
+                o = {"cls": cls, "id": oid, "consts": [], "bindings": [], "handlers": []}
+                real_objs.append(o)
+                self.real_named.append((oid, cls))
+                self.objs.insert(r.randint(0, len(self.objs)), o)
         # constants for some sources (end up in the .ui and are applied by the stand-in uic)
-        for o in self.objs:
+        for o in real_objs:
+            cands = [p for p in sc.all_props(o["cls"]) if p["layer"] in (0, 2) and p["name"] not in ("default", "down", "modified")]
+            for p in r.sample(cands, min(len(cands), r.randint(0, 3))):
+                ty = TY_OF[p["type"]]
+                o["consts"].append([p["name"], self.lit(ty)])
+        for o in [x for x in self.objs if x not in real_objs]:
             for p, ty in (("intVal", "int"), ("text", "string"), ("flag", "bool"), ("mode", "mode"), ("opts", "opts"), ("items", "strlist"), ("realVal", "double"), ("uintVal", "uint")):
                 if r.chance(0.25):
                     v = self.lit(ty)
@@ -858,7 +926,7 @@ class Gen:
         # layer 1 first (so that layer 2 knows which objects bind midPeer), then layer 2
         total = n_bindings or r.randint(4, 14)
         for o in self.objs:
-            if not o["id"]:
+            if not o["id"] or o in real_objs:
                 continue
             self.cur_owner, self.owner_cls, self.cur_layer = o["id"], o["cls"], 1
             for ty, props in sorted(MID_TARGETS.items()):
@@ -883,6 +951,11 @@ class Gen:
             self.cur_owner, self.owner_cls, self.cur_layer = o.get("id"), o["cls"], 2
             if is_root and root_cls != "SimPanel":
                 tys = ROOT_TARGETS
+            elif o in real_objs:
+                tys = {k: list(v) for k, v in ROOT_TARGETS.items()}
+                for p in sc.all_props(o["cls"]):
+                    if p["layer"] == 2 and p["name"] not in ("default", "down", "modified"):
+                        tys.setdefault(TY_OF[p["type"]], []).append(p["name"])
             else:
                 tys = dict(TARGETS)
                 if o["cls"] == "SimPanel":
@@ -891,7 +964,7 @@ class Gen:
             p = r.choice(tys[ty])
             if any(b["target"] == p for b in o["bindings"]) or any(c[0] == p for c in o["consts"]):
                 continue
-            if not is_root and r.chance(0.12) and not any(b["target"] == "font" for b in o["bindings"]):
+            if not is_root and o not in real_objs and r.chance(0.12) and not any(b["target"] == "font" for b in o["bindings"]):
                 # grouped gadget binding mixing constant and dynamic members
                 o["bindings"].append({"target": "font", "sub": "family", "layer": 2, "body": {"kind": "expr", "expr": self.gen("string", 1)}})
                 if r.chance(0.6):
